@@ -182,7 +182,7 @@ fn swap_rust(c: &Case, rep: &mut Report) {
     let len = 4 + p.below(13) as usize;
     let threads = 4 + p.below(5) as usize;
     let readers = 1 + p.below(2) as usize;
-    let rounds = (if c.thorough() { 400_000 } else { 100_000 }) * c.mult();
+    let rounds = (if c.thorough() { 600_000 } else { 150_000 }) * c.mult();
     let ids = gen_ids(&mut p, len);
     let mut sorted = ids.clone();
     sorted.sort_unstable();
@@ -462,7 +462,7 @@ macro_rules! swap_script_body {
         let len = 4 + p.below(13) as usize;
         let threads = 4 + p.below(5) as usize;
         let readers = 1 + p.below(2) as usize;
-        let rounds = (if c.thorough() { 320_000 } else { 80_000 }) * c.mult();
+        let rounds = (if c.thorough() { 480_000 } else { 120_000 }) * c.mult();
         let ids = gen_ids(&mut p, len);
         let mut sorted = ids.clone();
         sorted.sort_unstable();
@@ -712,13 +712,13 @@ fn emit_and_exit(rep: &Report) -> ! {
     std::process::exit(0)
 }
 
-const STORM_ROLES: [&str; 8] = ["compile", "runtime", "item", "item", "handle", "item", "handle", "compile"];
+const STORM_ROLES: [&str; 8] = ["compile", "runtime", "item", "handle", "item", "handle", "item", "handle"];
 
 fn refcount_storm(c: &Case, rep: &mut Report) {
     let mut p = c.prng(3);
     let variant = ["function-item", "library-closure", "constant"][(c.index % 3) as usize];
-    let threads = 5 + p.below(4) as usize;
-    let rounds = (if c.thorough() { 480_000 } else { 120_000 }) * c.mult();
+    let threads = 6 + p.below(3) as usize;
+    let rounds = (if c.thorough() { 600_000 } else { 200_000 }) * c.mult();
     let compiles = (if c.thorough() { 12 } else { 6 }) * c.mult().min(4);
     let rt_clones = rounds / 400;
     let held_n = 8000 + p.below(8000) as usize;
@@ -832,7 +832,7 @@ fn refcount_storm(c: &Case, rep: &mut Report) {
             return;
         }
     };
-    // thread roles: 0 and 7 compile, 1 clones the runtime, 4 and 6 clone the handle, the others clone the item
+    // thread roles (STORM_ROLES): one compiles, one clones the runtime, at least two clone the item and two the handle
     let role = |tid: usize| -> &'static str { STORM_ROLES[tid % 8] };
 
     let calls0 = calls.load(Ordering::SeqCst);
@@ -874,9 +874,10 @@ fn refcount_storm(c: &Case, rep: &mut Report) {
                         }
                     }
                     "handle" => {
-                        for k in 0..rounds {
+                        // a handle clone is only a count update: more rounds for the same time
+                        for k in 0..4 * rounds {
                             let h = pre_handle.clone();
-                            if k % 4096 == 0 {
+                            if k % 16384 == 0 {
                                 let r = h.call(2);
                                 storm_calls.fetch_add(2, Ordering::SeqCst);
                                 let ok = if is_const { r == 2 * tok_id } else { r >= 2 };
@@ -916,7 +917,7 @@ fn refcount_storm(c: &Case, rep: &mut Report) {
     let storm_calls = storm_calls.load(Ordering::SeqCst);
     rep.evaluations += compiled.load(Ordering::Relaxed);
     *rep.histograms.entry("share-ops".into()).or_default().entry("refcount-storm compilations".into()).or_insert(0) += compiled.load(Ordering::Relaxed);
-    *rep.histograms.entry("share-ops".into()).or_default().entry("refcount-storm clone+drop".into()).or_insert(0) += rounds * (0..threads).filter(|&t| role(t) == "item" || role(t) == "handle").count() as u64;
+    *rep.histograms.entry("share-ops".into()).or_default().entry("refcount-storm clone+drop".into()).or_insert(0) += rounds * (0..threads).map(|t| match role(t) { "item" => 1, "handle" => 4, _ => 0 }).sum::<u64>();
 
     let early = |rep: &mut Report, when: String, extra: Value| {
         rep.violation(
@@ -1317,9 +1318,9 @@ pub fn run_case(c: &Case, rep: &mut Report, keep_sample: bool) -> usize {
 /// The indices of one pass: every variant of every class.
 fn schedule(tier: &str, pass: u64) -> Vec<(&'static str, u64)> {
     let per: [(&'static str, u64); 4] = if tier == "thorough" {
-        [("swap-rust", 6), ("swap-script", 6), ("refcount-storm", 9), ("into-func", 8)]
+        [("swap-rust", 8), ("swap-script", 8), ("refcount-storm", 12), ("into-func", 8)]
     } else {
-        [("swap-rust", 2), ("swap-script", 2), ("refcount-storm", 3), ("into-func", 4)]
+        [("swap-rust", 3), ("swap-script", 4), ("refcount-storm", 6), ("into-func", 4)]
     };
     let mut v = vec![];
     for (class, n) in per {
